@@ -16,7 +16,7 @@ use serde_json::json;
 use std::collections::BTreeMap;
 use std::sync::{Arc, Mutex};
 
-const FUNCS: [(&str, bool); 5] = [("c1", true), ("c2", true), ("n1", false), ("mc", true), ("mn", false)];
+const FUNCS: [(&str, bool); 7] = [("c1", true), ("c2", true), ("n1", false), ("mc", true), ("mn", false), ("cz", true), ("nz", false)];
 /// the functions of the classic legs (the last two return containers and are used by the embedding leg)
 const CLASSIC: usize = 3;
 
@@ -42,6 +42,9 @@ fn wrap(w: usize, call: RE) -> RE {
 fn result_value(name: &str, t: u64) -> RV {
     if name.starts_with('m') {
         RV::map(&[("k", token_value(t)), ("l", RV::List(vec![token_value(t)]))])
+    } else if name.ends_with('z') {
+        // functions whose successful result is `none` (a cached none is still a cached result)
+        RV::None
     } else {
         token_value(t)
     }
@@ -532,7 +535,7 @@ pub fn run(tier: Tier) -> i32 {
     // of (function, argument, embedding) up to the bound, every split, every failure choice
     {
         let m_args: Vec<usize> = vec![0, 1, 12]; // i1, "1", m1
-        let alphabet: Vec<(usize, usize, usize)> = (CLASSIC..FUNCS.len()).flat_map(|f| m_args.iter().flat_map(move |a| (0..WRAPS.len()).map(move |w| (f, *a, w)))).collect();
+        let alphabet: Vec<(usize, usize, usize)> = (CLASSIC..CLASSIC + 2).flat_map(|f| m_args.iter().flat_map(move |a| (0..WRAPS.len()).map(move |w| (f, *a, w)))).collect();
         let max_len = tier.pick(2usize, 3usize);
         let mut seqs: Vec<Vec<(usize, usize, usize)>> = vec![vec![]];
         let mut frontier = seqs.clone();
@@ -566,6 +569,44 @@ pub fn run(tier: Tier) -> i32 {
                 let mut acc = Acc::new();
                 let st = check_case(c, &argv, 2, Some(1), &mut acc);
                 acc.count("embedded_histories", 1);
+                (acc, st)
+            })
+            .reduce(
+                || (Acc::new(), TreeStats::default()),
+                |(a, mut sa), (b, sb)| {
+                    sa.add(&sb);
+                    (a.merge(b), sa)
+                },
+            );
+        rep.absorb(acc);
+        stats.add(&st);
+    }
+    // functions that return none: cached like any other result, counted by the invocation log
+    {
+        let fs = [0usize, 5, 6];
+        let alphabet: Vec<(usize, usize)> = fs.iter().flat_map(|f| [0usize, 1, 9].into_iter().map(move |a| (*f, a))).collect();
+        let mut seqs: Vec<Vec<(usize, usize)>> = vec![vec![]];
+        let mut frontier = seqs.clone();
+        for _ in 0..3 {
+            let mut next = Vec::new();
+            for s in &frontier {
+                for c in &alphabet {
+                    let mut t = s.clone();
+                    t.push(*c);
+                    next.push(t);
+                }
+            }
+            seqs.extend(next.iter().cloned());
+            frontier = next;
+        }
+        let cs: Vec<Case> = seqs.iter().filter(|s| s.iter().any(|c| c.0 >= 5)).flat_map(|s| splits(s.len()).into_iter().map(move |sp| Case { calls: s.clone(), split: sp, wraps: vec![] })).collect();
+        n_cases += cs.len() as u64;
+        rep.bound("none_result_leg", format!("functions c1, cz (cacheable, returns none), nz (not cacheable, returns none) x arguments i1 / \"1\" / none, sequences <= 3, all splits, 2 evaluations: {} histories", cs.len()));
+        let (acc, st) = cs
+            .par_iter()
+            .map(|c| {
+                let mut acc = Acc::new();
+                let st = check_case(c, &argv, 2, None, &mut acc);
                 (acc, st)
             })
             .reduce(
